@@ -8,51 +8,57 @@ import (
 
 // Profile selects which descriptor features a lab switches on (DESIGN §2.1 feature profiles).
 type Profile struct {
-	Name              string
-	MaxControllers    int
-	MaxMethods        int
-	MultiPkg          bool
-	MultiFile         bool
-	Hidden            bool
-	Deprecated        bool
-	NonEndpoint       bool // methods without @Method / with empty route, methods of unrelated types
-	Security          bool
-	DefaultSecP       float64
-	ParamIn           []string
-	ParamTypeLevel    int  // 0 strings, 1 all primitives, 2 + enums/aliases/pointers/query slices
-	Validators        bool // validators on parameters
-	FieldValidators   bool
-	Models            int // 0 none, 1 simple, 2 rich
-	CustomErrors      bool
-	Responses         bool
-	RouteStyle        string // clean | slashy
-	CtlRouteParams    bool
-	VerbPathReuse     bool
-	SameNameCtls      bool
-	Maps              bool
-	UsageValidators   bool // validators on $ref-typed fields/params
-	HiddenJSON        bool // json:"-" and unexported fields
-	Descriptions      bool
-	WireNames         bool
-	ValueReceivers    bool
-	CtxParams         bool
-	EnforceP          float64
-	AnyBytesTime      bool // any / []byte / time.Time in fields and results
-	NestedSlices      bool
-	MutualRecursion   bool
-	AllRules          bool // draw validators from every rule either converter understands (C11)
-	BareControllers   bool // controllers without @Route / @Tag / any doc comment at all
-	RuntimeValidators bool // only validators whose run-time semantics the router labs model
-	HostileNames      bool // parameter names that stress identifier concatenation in the templates (C09)
-	CompileHostile    bool // value shapes the acceptance survey found to break compilation (C09 only)
-	TemplateTwins     bool // same path shape under another verb with differently named {variables} (spec profiles only)
-	SameNameTypes     bool // an enum twin with the same type name in another package, used under the same parameter name
-	LookalikeTypes    bool // user types named like the types gleece special-cases (context.Context, time.Time) in packages named alike
-	GroupedParams     bool // some signatures group consecutive same-typed parameters (a, b, c string)
-	ErrCodeIsSuccess  bool // an @ErrorResponse whose code equals the route's @Response code (accepted by the validator)
-	RepeatedErrCodes  bool // a repeated @ErrorResponse code (a warning) in front of further codes
-	DashedWireNames   bool // wire names with '-' and '_' for path/query parameters
-	OAuthSchemes      bool // oauth2 (1-4 flows, differing scopes) and openIdConnect schemes in the configuration
+	Name               string
+	MaxControllers     int
+	MaxMethods         int
+	MultiPkg           bool
+	MultiFile          bool
+	Hidden             bool
+	Deprecated         bool
+	NonEndpoint        bool // methods without @Method / with empty route, methods of unrelated types
+	Security           bool
+	DefaultSecP        float64
+	ParamIn            []string
+	ParamTypeLevel     int  // 0 strings, 1 all primitives, 2 + enums/aliases/pointers/query slices
+	Validators         bool // validators on parameters
+	FieldValidators    bool
+	Models             int // 0 none, 1 simple, 2 rich
+	CustomErrors       bool
+	Responses          bool
+	RouteStyle         string // clean | slashy
+	CtlRouteParams     bool
+	VerbPathReuse      bool
+	SameNameCtls       bool
+	Maps               bool
+	UsageValidators    bool // validators on $ref-typed fields/params
+	HiddenJSON         bool // json:"-" and unexported fields
+	Descriptions       bool
+	WireNames          bool
+	ValueReceivers     bool
+	CtxParams          bool
+	EnforceP           float64
+	AnyBytesTime       bool // any / []byte / time.Time in fields and results
+	NestedSlices       bool
+	MutualRecursion    bool
+	AllRules           bool // draw validators from every rule either converter understands (C11)
+	BareControllers    bool // controllers without @Route / @Tag / any doc comment at all
+	RuntimeValidators  bool // only validators whose run-time semantics the router labs model
+	HostileNames       bool // parameter names that stress identifier concatenation in the templates (C09)
+	CompileHostile     bool // value shapes the acceptance survey found to break compilation (C09 only)
+	TemplateTwins      bool // same path shape under another verb with differently named {variables} (spec profiles only)
+	SameNameTypes      bool // an enum twin with the same type name in another package, used under the same parameter name
+	LookalikeTypes     bool // user types named like the types gleece special-cases (context.Context, time.Time) in packages named alike
+	GroupedControllers bool // controllers declared inside a documented `type ( ... )` block
+	ControllerFields   bool // package-qualified fields in front of the embedded GleeceController
+	NestedBetween      bool // a globbed nested package whose directory sorts between two files of one controller
+	ErrorEmbeds        bool // custom error models that embed another struct and list `error` last
+	LowerVerbs         bool // now and then a verb in lower case (unsupported: the project has to be rejected)
+	CrossCtlSameRoute  bool // two controllers with different prefixes declare the same verb + method-level route
+	GroupedParams      bool // some signatures group consecutive same-typed parameters (a, b, c string)
+	ErrCodeIsSuccess   bool // an @ErrorResponse whose code equals the route's @Response code (accepted by the validator)
+	RepeatedErrCodes   bool // a repeated @ErrorResponse code (a warning) in front of further codes
+	DashedWireNames    bool // wire names with '-' and '_' for path/query parameters
+	OAuthSchemes       bool // oauth2 (1-4 flows, differing scopes) and openIdConnect schemes in the configuration
 }
 
 var verbs = []string{"GET", "POST", "PUT", "DELETE", "PATCH"}
@@ -145,6 +151,63 @@ func Gen(r *rand.Rand, prof Profile, name, modRoot string) *Project {
 // postControllers plants the shapes that need two cooperating sites.
 func (g *gen) postControllers() {
 	p := g.p
+	if g.prof.CrossCtlSameRoute && len(p.Controllers) >= 2 && g.chance(0.4) {
+		// the same verb and method-level @Route under two different controller prefixes
+		a := &p.Controllers[0]
+		for bi := 1; bi < len(p.Controllers); bi++ {
+			b := &p.Controllers[bi]
+			if strings.Trim(a.Route, "/") == strings.Trim(b.Route, "/") || a.NoRouteAnn || b.NoRouteAnn || len(a.Methods) == 0 || len(b.Methods) == 0 {
+				continue
+			}
+			src := a.Methods[0]
+			dst := &b.Methods[0]
+			if !src.IsEndpoint() || !dst.IsEndpoint() || hasBodyOrForm(dst.Params) || hasBodyOrForm(src.Params) {
+				continue
+			}
+			var keep, pp []Param
+			names := map[string]bool{}
+			for _, pr := range dst.Params {
+				if pr.In != "path" || pr.GoName == "tenant" {
+					keep = append(keep, pr)
+					names[pr.GoName] = true
+				}
+			}
+			ok := true
+			for _, pr := range src.Params {
+				if pr.In == "path" && pr.GoName != "tenant" {
+					if names[pr.GoName] {
+						ok = false
+					}
+					pp = append(pp, pr)
+				}
+			}
+			if ok {
+				dst.Verb, dst.Route = src.Verb, src.Route
+				dst.Params = append(pp, keep...)
+				p.SetFeature("same-method-route-under-two-prefixes")
+			}
+			break
+		}
+	}
+	if g.prof.NestedBetween && g.chance(0.35) {
+		for ci := range p.Controllers {
+			c := &p.Controllers[ci]
+			if c.Pkg != "ctl" || len(c.Files) < 2 || p.Pkg("nest") != nil {
+				continue
+			}
+			// "<file0 without .go>x/" sorts after file 0 and before file 1 of this controller
+			dir := "ctl/" + strings.TrimSuffix(c.Files[0], ".go") + "x"
+			p.Pkgs = append(p.Pkgs, Pkg{Key: "nest", Dir: dir, Name: "nested"})
+			p.Config.Globs = append(p.Config.Globs, "./"+dir+"/*.go")
+			cn := g.fresh("NestedCtl")
+			nc := Controller{Name: cn, Pkg: "nest", Files: []string{"nested_ctl.go"}, Route: "/nested", Tag: "Nested"}
+			t := Prim("string")
+			nc.Methods = append(nc.Methods, Method{Name: g.fresh("ReadNested"), Verb: "GET", Route: "/read", Ret: &t})
+			p.Controllers = append(p.Controllers, nc)
+			p.SetFeature("nested-package-between-controller-files")
+			break
+		}
+	}
 	type site struct{ ci, mi int }
 	var eps []site
 	for ci := range p.Controllers {
@@ -265,7 +328,18 @@ func (g *gen) postControllers() {
 	if g.prof.SameNameTypes && len(p.Enums) > 0 && len(eps) >= 2 {
 		src := p.Enums[0]
 		other := otherPkg(src.Pkg)
-		if other != "" && g.chance(0.5) {
+		if other != "" && g.chance(0.3) {
+			// an ALIAS of the enum's name in the other package, used by an earlier route than the enum itself
+			if a, b, ok := seeing(other, src.Pkg); ok {
+				ma, mb := &p.Controllers[a.ci].Methods[a.mi], &p.Controllers[b.ci].Methods[b.mi]
+				if !hasParam(ma, "lvl") && !hasParam(mb, "lvl") {
+					p.Aliases = append(p.Aliases, Alias{Name: src.Name, Pkg: other, Base: src.Base})
+					ma.Params = append(ma.Params, Param{GoName: "lvl", In: "query", Type: Named(other, src.Name)})
+					mb.Params = append(mb.Params, Param{GoName: "lvl", In: "query", Type: Named(src.Pkg, src.Name)})
+					p.SetFeature("alias-and-enum-share-a-name-across-packages")
+				}
+			}
+		} else if other != "" && g.chance(0.5) {
 			twin := src
 			twin.Pkg = other
 			twin.Decoys = nil
@@ -287,7 +361,7 @@ func (g *gen) postControllers() {
 	}
 }
 
-var pkgRank = map[string]int{"alt1": -2, "alt2": -3, "alt3": -4, "hctx": -1, "htime": -1, "shared": 0, "models": 1, "ctl2": 2, "ctl": 3}
+var pkgRank = map[string]int{"nest": -1, "alt1": -2, "alt2": -3, "alt3": -4, "hctx": -1, "htime": -1, "shared": 0, "models": 1, "ctl2": 2, "ctl": 3}
 
 // visible: package `from` may import package `of` (the generator keeps the package graph acyclic).
 func visible(from, of string) bool { return pkgRank[of] <= pkgRank[from] }
@@ -363,8 +437,16 @@ func (g *gen) genConfig() {
 	if g.chance(0.5) {
 		c.InfoDescr = "Generated project " + g.p.Name
 	}
-	if g.chance(0.3) {
+	if g.chance(0.4) {
 		c.ContactName, c.ContactEmail, c.ContactURL = "Support", "support@example.com", "https://example.com/support"
+		switch g.r.Intn(4) { // every field of the contact is optional on its own
+		case 0:
+			c.ContactName = ""
+		case 1:
+			c.ContactName, c.ContactURL = "", ""
+		case 2:
+			c.ContactEmail, c.ContactURL = "", ""
+		}
 	}
 	if g.chance(0.3) {
 		c.LicenseName, c.LicenseURL = "MIT", "https://opensource.org/licenses/MIT"
@@ -415,7 +497,7 @@ func (g *gen) genConfig() {
 	}
 }
 
-var scopePool = []string{"read", "write", "admin", "read:users", "x"}
+var scopePool = []string{"read", "write", "admin", "read:users", "x", "orders:read&write", "a<b>", "it's"}
 
 func (g *gen) genSecurityOne() Security {
 	names := []string{"apiKeyAuth", "bearerAuth", "queryKey"}
@@ -824,6 +906,14 @@ func (g *gen) genControllers() {
 		if prof.Security && g.chance(0.4) {
 			c.Security = g.genSecurityList()
 		}
+		if prof.GroupedControllers && g.chance(0.25) {
+			c.Grouped = true
+			p.SetFeature("controller-in-grouped-type-declaration")
+		}
+		if prof.ControllerFields && g.chance(0.25) {
+			c.LeadFields = []string{g.pick([]string{"mu sync.Mutex", "once *sync.Once", "Mu sync.RWMutex"})}
+			p.SetFeature("fields-before-embedded-controller")
+		}
 		if prof.BareControllers && i > 0 && g.chance(0.25) {
 			// no @Route; sometimes no doc comment at all (declared right after a documented controller)
 			c.NoRouteAnn, c.Route = true, ""
@@ -1087,6 +1177,10 @@ func (g *gen) genMethod(c *Controller, idx int) Method {
 	m := Method{Name: g.fresh(g.pick(methodVerbsWords) + g.pick(nouns))}
 	m.File = g.r.Intn(len(c.Files))
 	m.Verb = g.pick(verbs)
+	if prof.LowerVerbs && !g.p.HasFeature("lower-case-verb") && len(g.p.Controllers) == 0 && idx == 0 && g.chance(0.12) {
+		m.Verb = strings.ToLower(m.Verb) // not a supported spelling: the project must be rejected, not half accepted
+		g.p.SetFeature("lower-case-verb")
+	}
 	lit := strings.ToLower(m.Name)
 	m.Route = "/" + lit
 	if prof.NonEndpoint && g.chance(0.12) {
@@ -1264,7 +1358,19 @@ func (g *gen) genMethod(c *Controller, idx int) Method {
 		// custom error type lives in the controller's package (DESIGN App. L)
 		name := "ApiError" + strings.ToUpper(c.Pkg[:1]) + c.Pkg[1:]
 		if g.p.Struct(c.Pkg, name) == nil {
-			g.p.Structs = append(g.p.Structs, Struct{Name: name, Pkg: c.Pkg, IsError: true, Fields: []Field{{GoName: "Code", Type: Prim("int"), JSONName: "code"}, {GoName: "Reason", Type: Prim("string"), JSONName: "reason", Validate: "required"}}})
+			es := Struct{Name: name, Pkg: c.Pkg, IsError: true, Fields: []Field{{GoName: "Code", Type: Prim("int"), JSONName: "code"}, {GoName: "Reason", Type: Prim("string"), JSONName: "reason", Validate: "required"}}}
+			if prof.ErrorEmbeds && g.chance(0.4) {
+				// the error model embeds another struct and lists `error` last
+				if cands := g.structsFor(c.Pkg, -1); len(cands) > 0 {
+					e := cands[g.r.Intn(len(cands))]
+					if e.Name[0] >= 'A' && e.Name[0] <= 'Z' {
+						es.Fields = append([]Field{{Embedded: true, Type: Named(e.Pkg, e.Name)}}, es.Fields...)
+						es.ErrorLast = true
+						g.p.SetFeature("error-model-embeds-a-struct")
+					}
+				}
+			}
+			g.p.Structs = append(g.p.Structs, es)
 		}
 		m.ErrType = name
 		m.ErrPtr = g.chance(0.5)
